@@ -37,7 +37,8 @@ CHECKS = {
     "C03": {"parts": [P("instance-ring", "./c03", "^TestC03Instances$"), P("partition-ring", "./c03", "^TestC03Partitions$")]},
     "C04": {"parts": [P("tombstones", "./gossip", "^TestC04$", budget={"quick": 240, "thorough": 1500})]},
     "C06": {"parts": [P("convergence", "./gossip", "^TestC06Convergence$", budget={"quick": 240, "thorough": 1500}),
-                      P("malformed", "./gossip", "^TestC06Malformed$"), P("stateblob", "./gossip", "^TestC06StateBlob$"), P("invalidation", "./gossip", "^TestC06Invalidates$"), P("queued-gossip", "./gossip", "^TestC06Queue$")]},
+                      P("malformed", "./gossip", "^TestC06Malformed$"), P("stateblob", "./gossip", "^TestC06StateBlob$"), P("invalidation", "./gossip", "^TestC06Invalidates$"), P("queued-gossip", "./gossip", "^TestC06Queue$"),
+                      P("key-purge", "./gossip", "^TestC06KeyPurge$")]},
     "C05": {"parts": [P("merge-bfs", "./c05", "^TestC05$")]},
     "C07": {"parts": [P("cas-atomicity", "./c07", "^TestC07$", shards={"quick": 16, "thorough": 16}, budget={"quick": 200, "thorough": 1200}, gomaxprocs=1,
                       overlay=[{"file": "kv/consul/mock.go", "rewrite": ['"sync"']},
